@@ -17,6 +17,7 @@ DjEntry(kind, k) == Entry(NameSeq[k], IF kind = "slashid" THEN "slash" ELSE "pla
                           "TAN", kind # "noid", k)
 DjFeeds(maxlen) == UNION {{[k \in 1..len |-> DjEntry(ks[k], k)] : ks \in [1..len -> DjKinds]} : len \in 0..maxlen}
 DjSetups(maxlen, most) == SetupsOf(DjFeeds(maxlen), most)
+MCDefaultSetups == DjSetups(3, 1)        \* for MCFeedSource.cfg (checks/g08.py chooses its own)
 
 \* ---- astropix: <<name, spelling, projection, has an image_id>>
 AxPoolQ == {<<"m", "plain", "TAN", TRUE>>, <<"m", "upper", "TAN", TRUE>>, <<"m", "under", "TAN", TRUE>>, <<"m", "slash", "TAN", TRUE>>,
